@@ -42,6 +42,11 @@ def run():
             elif rc != 0:
                 raise vlib.Inconclusive("driver under -race failed:\n" + txt[-3000:])
             continue
+        m = re.search(r"fatal error: concurrent map[^\n]*", txt)
+        if m:   # the Go runtime stopped the process: an unsynchronised map access is the violation itself
+            i = txt.find(m.group(0))
+            v.fail("runtime-fatal:concurrent-map", {"what": m.group(0), "stack": txt[i:i + 2500]})
+            continue
         if rc != 0 or not recs:
             raise vlib.Inconclusive("concurrent driver failed:\n" + txt[-3000:])
         for x in recs:
